@@ -42,8 +42,11 @@ class AsmPasses:
         for m, op in (("LDA", "T,PCR"), ("LDY", "T,PCR"), ("LEAX", "[T,PCR]")):
             for hint in (2, 4):
                 out.append({"id": "fn/fix_addresses/pcr/%s/hint%d" % (m, hint), "k": "pcr", "mnemonic": m, "operand": op, "hint": hint})
-        for d in ("fwd", "bwd"):
-            out.append({"id": "fn/determine_pcr_relative_sizes/%s" % d, "k": "sizes", "dir": d})
+        # forward: the statements between may still grow.  Two pre-condition cases are proved (the mixed case is the bounded
+        # pcr-multi family of asm_layout): every statement's max_size covers its size / every statement between is final
+        out.append({"id": "fn/determine_pcr_relative_sizes/fwd/max-covers-size", "k": "sizes", "dir": "fwd", "case": "max"})
+        out.append({"id": "fn/determine_pcr_relative_sizes/fwd/all-final-between", "k": "sizes", "dir": "fwd", "case": "final"})
+        out.append({"id": "fn/determine_pcr_relative_sizes/bwd", "k": "sizes", "dir": "bwd", "case": "final"})
         out.append({"id": "lemma/prefix-sum-monotone", "k": "pslemma"})
         return out
 
@@ -93,8 +96,9 @@ class AsmPasses:
             nfill, direction = h["probe_n"], h["probe_dir"]
             m, op = (cell.get("mnemonic") or "LDA"), (cell.get("operand") or "T,PCR")
             src = " %s %s\n" % (m, op)
-            lines = [src, " RMB %d\n" % nfill, "T NOP\n"] if direction == "fwd" else ["T NOP\n", " RMB %d\n" % nfill, src]
-            si, ti = (0, 2) if direction == "fwd" else (2, 0)
+            fill = [" RMB %d\n" % nfill] if h.get("probe_fill", "rmb") == "rmb" else [" STA 20,X\n"] * nfill
+            lines = ([src] + fill + ["T NOP\n"]) if direction == "fwd" else (["T NOP\n"] + fill + [src])
+            si, ti = (0, len(lines) - 1) if direction == "fwd" else (len(lines) - 1, 0)
             run = assemble(env, lines, bytes_of=[si])
             if run.status != "ok":
                 env.ensure(KEY + "probe:terminates-and-accepts", run.status == "diag", ("C13", "C03"),
@@ -104,17 +108,25 @@ class AsmPasses:
             d = mc6809.decode(st.bytes)
             ok = d.ok and d.length == len(st.bytes) and d.kind in ("pcr8", "pcr16") and \
                 (st.address + len(st.bytes) + d.offset - run.stmts[ti].address) % 65536 == 0
-            env.ensure(KEY + "probe:pcr-target", ok, ("C03",), lambda: "probe:%s:%s:n=%d" % (m, direction, nfill))
+            clause = (KEY + "determine_pcr_relative_sizes::post:fits8-%s" % ("forward" if direction == "fwd" else "backward")) \
+                if k == "sizes" else KEY + "probe:pcr-target"
+            env.ensure(clause, ok, ("C03",), lambda: "probe:%s:%s:%s:n=%d:%s" % (m, direction, h.get("probe_fill", "rmb"), nfill, d.kind if d.ok else "undecodable"))
         else:
             env.ensure(KEY + "native-replay-not-implemented", True, ())
 
     def probes(self, cell):
         if cell["k"] in ("pcr", "sizes"):
             for direction in ("fwd", "bwd"):
-                for nfill in (0, 1, 50, 100, 118, 119, 120, 121, 122, 123, 127, 128, 129, 130, 131, 132, 200, 300, 40000):
-                    if direction == "bwd" and 120 <= nfill <= 127:
-                        continue      # the known backward boundary finding (asm_layout) is not re-litigated here
-                    yield {"probe_n": nfill, "probe_dir": direction}
+                if cell["k"] == "sizes" and cell["dir"] != direction:
+                    continue
+                for nfill in (0, 1, 50, 100, 118, 119, 120, 121, 122, 123, 124, 125, 126, 127, 128, 129, 130, 131, 132, 200, 300, 40000):
+                    if cell["k"] == "pcr" and direction == "bwd" and 120 <= nfill <= 127:
+                        continue      # the known backward boundary finding is the sizes/bwd cell's
+                    yield {"probe_n": nfill, "probe_dir": direction, "probe_fill": "rmb"}
+                if cell["k"] == "sizes":
+                    # fillers whose size exceeds their max_size (constant-offset indexed statements: 3 bytes each)
+                    for cnt in (10, 30, 41, 42, 43, 50, 60, 100):
+                        yield {"probe_n": cnt, "probe_dir": direction, "probe_fill": "idx"}
 
     # ------------------------------------------------------------------ helpers
     def _statement(self, env, line, table):
@@ -282,79 +294,77 @@ class AsmPasses:
         size0 = it.getattr_(pkg, "size")
         env.ensure(KEY + "translate::post:pcr-unfixed", Not(it.truth_sym(it.getattr_(stmt, "fixed_size"))), ("C03",))
         p.assume(And(sel(SIZE, this) == size0, sel(MAX, this) == it.getattr_(pkg, "max_size")))
-        if direction == "bwd":
-            # precondition of the backward case: the statements between target and this precede this one in the sweep of
-            # translate_statements and are therefore already fixed (max == size); named instance over the prefix sums
-            p.assume(sel(PSx, this) - sel(PSx, target) == sel(PSn, this) - sel(PSn, target))
+        case = cell.get("case", "max")
         stmts = self._abs_statements(env, n, SIZE, MAX, SIZE, None, stmt)
         key = KEY + "determine_pcr_relative_sizes"
         v = Verifier(env, it)
         lo_term = this if direction == "fwd" else target
+        INT = "contract over an abstract statement list"
 
         def init(ctx):
             return {}
 
         def havoc(ctx):
             p.fresh += 1
-            ctx.locals["max_size"] = SymInt(z3.Int("mx!%d" % p.fresh))
-            ctx.locals["min_size"] = SymInt(z3.Int("mn!%d" % p.fresh))
+            for nm in ("max_size", "min_size"):
+                if nm in ctx.locals:
+                    ctx.locals[nm] = SymInt(z3.Int("%s!%d" % (nm[:2], p.fresh)))
             return {}
-
-        def inv(ctx, i, g):
-            x = ctx.it.start + i if hasattr(ctx.it, "start") else lo_term + i
-            return [("min", ctx.locals["min_size"] == sel(PSn, lo_term + i) - sel(PSn, lo_term)),
-                    ("max", ctx.locals["max_size"] == sel(PSx, lo_term + i) - sel(PSx, lo_term))]
 
         def step(ctx, i, g):
             return {}
 
-        def assume(ctx, i):
-            x = lo_term + i
-            return [sel(PSn, x + 1) == sel(PSn, x) + sel(SIZE, x), sel(PSx, x + 1) == sel(PSx, x) + sel(MAX, x),
-                    sel(SIZE, x) >= 0, sel(MAX, x) >= sel(SIZE, x)]
-
-        class RangeSpec(LoopSpec):
-            pass
-        # the loop iterates `for x in range_count` with range_count = range(lo, hi): the cut index i is x itself
+        # the loop iterates `for x in range_count` with range_count = range(lo, hi): the cut index is x itself.  The invariant
+        # is about the two accumulators of the real code; if one of them does not exist (any more) the clause cannot hold
         def inv_r(ctx, x, g):
-            return [("min", ctx.locals["min_size"] == sel(PSn, x) - sel(PSn, lo_term)),
-                    ("max", ctx.locals["max_size"] == sel(PSx, x) - sel(PSx, lo_term))]
+            mn, mx = ctx.locals.get("min_size"), ctx.locals.get("max_size")
+            return [("min-accumulator", (mn == sel(PSn, x) - sel(PSn, lo_term)) if mn is not None else False),
+                    ("max-accumulator", (mx == sel(PSx, x) - sel(PSx, lo_term)) if mx is not None else False)]
 
         def assume_r(ctx, x):
-            return [sel(PSn, x + 1) == sel(PSn, x) + sel(SIZE, x), sel(PSx, x + 1) == sel(PSx, x) + sel(MAX, x),
-                    sel(SIZE, x) >= 0, sel(MAX, x) >= sel(SIZE, x)]
+            out = [sel(PSn, x + 1) == sel(PSn, x) + sel(SIZE, x), sel(PSx, x + 1) == sel(PSx, x) + sel(MAX, x), sel(SIZE, x) >= 0,
+                   sel(MAX, x) >= 0]
+            if case == "max":
+                out.append(sel(MAX, x) >= sel(SIZE, x))
+            return out
         v.loop(key, 0, LoopSpec(("C03", "C13"), init, havoc, inv_r, step, assume=assume_r))
         with v.installed():
             try:
                 it.call(it.getattr_(stmt, "determine_pcr_relative_sizes"), [stmts, this], {})
             except PyRaise as pr:
-                env.fail(key + "::raises:none", ("C13",))
+                env.fail(key + "::raises:none", ("C13",), internal=INT)
                 return
         fixed = it.truth_sym(it.getattr_(stmt, "fixed_size"))
-        env.ensure(key + "::post:progress", fixed, ("C13", "C03"), internal="contract over an abstract statement list")
+        env.ensure(key + "::post:progress", fixed, ("C13", "C03"), internal=INT)
         pkg = it.getattr_(stmt, "code_pkg")
         size1 = it.getattr_(pkg, "size")
         hint = it.getattr_(stmt, "pcr_size_hint")
-        env.ensure(key + "::post:size-accounts-offset", size1 == size0 + (1 if hint == 2 else 2), ("C02", "C03"))
-        env.ensure(key + "::post:max-size-is-size", it.getattr_(pkg, "max_size") == size1, ("C03",))
+        env.ensure(key + "::post:size-accounts-offset", size1 == size0 + (1 if hint == 2 else 2), ("C02", "C03"), internal=INT)
+        env.ensure(key + "::post:max-size-is-size", it.getattr_(pkg, "max_size") == size1, ("C03",), internal=INT)
         pb = it.getattr_(it.getattr_(pkg, "post_byte"), "int")
-        env.ensure(key + "::post:post-byte", pb == (0x8C if hint == 2 else 0x8D), ("C03", "C01"))
-        if direction == "bwd" and hint == 4:
-            # all statements between target and this are already fixed when this one is sized (they precede it in the sweep):
-            # named instance  PSmax[this]-PSmax[target] == PSmin[this]-PSmin[target]
+        env.ensure(key + "::post:post-byte", pb == (0x8C if hint == 2 else 0x8D), ("C03", "C01"), internal=INT)
+        if hint != 2:
+            return
+        # ---- the property's clause: the 8-bit form is chosen only when the final displacement fits
+        PSf = z3.Array("PSfin", z3.IntSort(), z3.IntSort())
+        if direction == "fwd":
+            p.assume(And(sel(PSx, this + 1) == sel(PSx, this) + sel(MAX, this), sel(PSn, this + 1) == sel(PSn, this) + sel(SIZE, this),
+                         sel(MAX, this) >= 0))
+            dfin = sel(PSf, target) - sel(PSf, this + 1)
+            p.assume(dfin >= 0)
+            if case == "max":
+                # every final size is at most its max_size: monotonicity lemma instance (proved by induction, cell lemma/prefix-sum-monotone)
+                p.assume(dfin <= sel(PSx, target) - sel(PSx, this + 1))
+            else:
+                # every statement between is final: its final size is its size
+                p.assume(dfin == sel(PSn, target) - sel(PSn, this + 1))
+            env.ensure(key + "::post:fits8-forward", dfin <= 127, ("C03",), internal=INT)
+        else:
+            # backward: the statements between target and this precede this one in the sweep of translate_statements and were
+            # sized before it, so they are final
             between = sel(PSn, this) - sel(PSn, target)
             jump = -(between + size1)
-            env.ensure(key + "::post:wide-backward-is-far", jump <= -129, ("C03",))
-        if direction == "fwd" and hint == 2:
-            # every final displacement d = sum of final sizes of the statements strictly between, each <= its max:
-            # with the monotonicity lemma instance  PSfin(t)-PSfin(this+1) <= PSmax(t)-PSmax(this+1)
-            PSf = z3.Array("PSfin", z3.IntSort(), z3.IntSort())
-            p.assume(sel(PSx, this + 1) == sel(PSx, this) + sel(MAX, this))
-            p.assume(sel(MAX, this) >= 0)
-            p.assume(sel(PSf, target) - sel(PSf, this + 1) <= sel(PSx, target) - sel(PSx, this + 1))      # lemma instance
-            p.assume(sel(PSf, target) - sel(PSf, this + 1) >= 0)
-            dfin = sel(PSf, target) - sel(PSf, this + 1)
-            env.ensure(key + "::post:fits8-forward", dfin <= 127, ("C03",))
+            env.ensure(key + "::post:fits8-backward", jump >= -128, ("C03",), internal=INT)
 
     # ------------------------------------------------------------------ the lemma used above, by induction on b
     def s_pslemma(self, env, cell):
